@@ -536,9 +536,9 @@ func (ex *exprTr) call(x *ast.CallExpr) Val {
 		vc.quantCtx = true
 		bound := and(app("<=", lo, c), app("<", c, hi))
 		if name == "verif_forallRange" {
-			return Val{t: "(forall ((" + c + " Int)) " + implies(bound, body) + ")", typ: rt}
+			return Val{t: "(forall ((" + c + " Int)) " + withPattern(implies(bound, body), c) + ")", typ: rt}
 		}
-		return Val{t: "(exists ((" + c + " Int)) " + and(bound, body) + ")", typ: rt}
+		return Val{t: "(exists ((" + c + " Int)) " + withPattern(and(bound, body), c) + ")", typ: rt}
 	case "verif_forall", "verif_exists":
 		fl, ok := x.Args[0].(*ast.FuncLit)
 		if !ok {
@@ -603,7 +603,7 @@ func (ex *exprTr) specCall(fo *types.Func, x *ast.CallExpr, rt types.Type) Val {
 	if !strings.HasSuffix(vc.P.fset.Position(decl.Pos()).Filename, "zz_verif_prelude.go") {
 		vc.fail("contract: %s is not a spec function", fo.Name())
 	}
-	if decl.Body == nil {
+	if decl.Body == nil || vc.isOpaqueHere(fo) {
 		// uninterpreted
 		var sorts []string
 		var ts []Term
